@@ -301,12 +301,32 @@ def _decorators(fn):
     return out
 
 
+# attributes whose class is fixed by the constructors of the user-level API (ModelElement.topo is the Topology the element
+# belongs to; Topology.graph_model is its property graph)
+RECEIVER_CLASSES = {
+    'self.topo': 'fim.user.topology:Topology',
+}
+
+
 def resolve_helper(prog, cls, module, call, public=(), exclude=()):
     """(helper FunctionDef, defining ClassInfo or None, skip_first_param) for a call to a private helper of the same
     class (self.x / cls.x / ClassName.x) or module (x); None when the callee is not such a helper."""
     f = call.func
     name = None
     owner = None
+    if isinstance(f, ast.Attribute) and isinstance(f.value, ast.Attribute) and _is_private(f.attr) and f.attr not in exclude:
+        # a private helper of another class reached through an attribute whose class is fixed by construction
+        spec = RECEIVER_CLASSES.get(ast.unparse(f.value))
+        if spec is not None:
+            try:
+                oc = prog.cls(spec)
+            except Exception:
+                oc = None
+            if oc is not None:
+                owner, fn = oc.find_method(f.attr)
+                if fn is not None and f.attr not in owner.properties and 'staticmethod' not in _decorators(fn):
+                    return fn, owner, True
+        return None
     if isinstance(f, ast.Attribute) and isinstance(f.value, ast.Name):
         name = f.attr
         recv = f.value.id
@@ -330,8 +350,19 @@ def resolve_helper(prog, cls, module, call, public=(), exclude=()):
     elif isinstance(f, ast.Name):
         name = f.id
         fn = module.functions.get(name) if module is not None else None
+        if fn is None and module is not None and name in module.imports:
+            # a module-level function of the package imported by name
+            target = module.imports[name]
+            modname, _, fname = target.rpartition('.')
+            m2 = prog.modules.get(modname)
+            if m2 is not None and fname in m2.functions:
+                fn = m2.functions[fname]
         if fn is None:
             return None
+        # module-level functions of the library are few and are helpers by nature: all of them are inlinable
+        if name in exclude or any(isinstance(x, (ast.Yield, ast.YieldFrom)) for x in ast.walk(fn)):
+            return None
+        return fn, None, False
     else:
         return None
     if not (_is_private(name) or name in public) or name in exclude:
@@ -393,8 +424,12 @@ def _bind(helper, call, skip_first):
             else:
                 raise NoInline(f'parameter {p} not bound')
     if first is not None and isinstance(call.func, ast.Attribute):
-        binding[first] = call.func.value if isinstance(call.func.value, ast.Name) and call.func.value.id in ('self', 'cls') \
-            else ast.Name(id=first, ctx=ast.Load())
+        if isinstance(call.func.value, ast.Name) and call.func.value.id in ('self', 'cls'):
+            binding[first] = call.func.value
+        elif isinstance(call.func.value, ast.Attribute) and ast.unparse(call.func.value) in RECEIVER_CLASSES:
+            binding[first] = call.func.value
+        else:
+            binding[first] = ast.Name(id=first, ctx=ast.Load())
     return binding
 
 
@@ -571,9 +606,15 @@ class _Inliner:
             prefix = []
             renames = {}
             self.counter += 1
+            uses = {}
+            for n_ in ast.walk(fn):
+                if isinstance(n_, ast.Name) and isinstance(n_.ctx, ast.Load):
+                    uses[n_.id] = uses.get(n_.id, 0) + 1
             for p in list(binding):
-                if p in stored:
-                    # the helper rebinds its parameter: keep it as a local initialised from the argument
+                computed = any(isinstance(x, ast.Call) for x in ast.walk(binding[p])) and uses.get(p, 0) > 1
+                if p in stored or computed:
+                    # the helper rebinds its parameter (or uses a computed argument more than once): keep it as a local
+                    # initialised from the argument
                     new = p if p not in caller_names else f'{p}__{fn.name.strip("_")}{self.counter}'
                     prefix.append(ast.copy_location(
                         ast.Assign(targets=[ast.Name(id=new, ctx=ast.Store())], value=binding.pop(p), lineno=st.lineno), st))
@@ -715,6 +756,20 @@ class _Inliner:
         return out
 
 
+def fold_getattr(tree):
+    """``getattr(X, '<identifier>')`` (two arguments, constant name) -> ``X.<identifier>`` in place; the two are the
+    same expression, and after a helper that receives a method name has been inlined only the first form is left."""
+    class _G(ast.NodeTransformer):
+        def visit_Call(self, node):
+            self.generic_visit(node)
+            if isinstance(node.func, ast.Name) and node.func.id == 'getattr' and len(node.args) == 2 and not node.keywords and \
+                    isinstance(node.args[1], ast.Constant) and isinstance(node.args[1].value, str) and node.args[1].value.isidentifier():
+                return ast.copy_location(ast.Attribute(value=node.args[0], attr=node.args[1].value, ctx=ast.Load()), node)
+            return node
+    _G().visit(tree)
+    return tree
+
+
 def inline(prog, cls, fn, public=(), depth=3, module=None, exclude=()):
     """A copy of ``fn`` with calls to private helpers (and the named ``public`` ones) of the same class / module inlined.
     The copy has ``_inlined`` (list of helper names), ``_cls`` and parent links; node line numbers are those of the
@@ -736,6 +791,7 @@ def inline(prog, cls, fn, public=(), depth=3, module=None, exclude=()):
     new._inlined = inl.inlined
     new._cls = getattr(fn, '_cls', cls)
     new._orig = fn
+    fold_getattr(new)
     ast.fix_missing_locations(new)
     for node in ast.walk(new):
         for child in ast.iter_child_nodes(node):
@@ -838,14 +894,19 @@ def _enclosing(node, fn):
     while st is not None and not isinstance(st, ast.stmt):
         st = getattr(st, '_parent', None)
     blk_owner = getattr(st, '_parent', None) if st is not None else None
-    while st is not None and blk_owner is not None and blk_owner is not fn:
-        for field in ('body', 'orelse'):
+    while st is not None and blk_owner is not None:
+        for field in ('body', 'orelse', 'finalbody'):
             blk = getattr(blk_owner, field, None)
-            if isinstance(blk, list) and st in blk:
-                for prev in blk[:blk.index(st)]:
+            if isinstance(blk, list) and any(st is x for x in blk):
+                idx = [k for k, x in enumerate(blk) if x is st][0]
+                for prev in blk[:idx]:
                     if isinstance(prev, ast.If) and not prev.orelse and prev.body and \
                             isinstance(prev.body[-1], (ast.Continue, ast.Return, ast.Raise, ast.Break)):
-                        extra.append(ast.UnaryOp(op=ast.Not(), operand=prev.test))
+                        g_ = ast.UnaryOp(op=ast.Not(), operand=prev.test)
+                        g_._guard = type(prev.body[-1]).__name__        # 'Raise' | 'Return' | 'Continue' | 'Break'
+                        extra.append(g_)
+        if blk_owner is fn:
+            break
         st = blk_owner
         blk_owner = getattr(blk_owner, '_parent', None)
     return gens, conds + extra
@@ -1289,3 +1350,174 @@ def value_under(expr, bindings, fold, env=None, fn=None):
         return fold(e)
     except Exception:
         raise Unknown(key)
+
+
+# ---------------------------------------------------------------------------
+# comprehension -> loop, and naming of nested calls (the inverse direction of ``builders``): rules that follow data flow
+# through named collections see ``for x in f(..)`` / ``S.update(y for y in g(..) if c)`` as the loops they abbreviate
+# ---------------------------------------------------------------------------
+
+def _set_parents(fn):
+    for node in ast.walk(fn):
+        for child in ast.iter_child_nodes(node):
+            child._parent = node
+    return fn
+
+
+def loopify(fn):
+    """Copy of ``fn`` in which, at statement level, ``T = [comprehension]`` / ``T = {comprehension}``,
+    ``T.update(<comprehension>)`` / ``T.extend(<comprehension>)`` and ``return [comprehension]`` are written as explicit
+    loops (``T.append`` / ``T.add`` / ``T[k] = v`` under the same generators and conditions)."""
+    new = clone(fn)
+    counter = [0]
+
+    def nest(comp, leaf):
+        body = leaf
+        for g in reversed(comp.generators):
+            for c in reversed(g.ifs):
+                body = [ast.If(test=c, body=body, orelse=[])]
+            body = [ast.For(target=g.target, iter=g.iter, body=body, orelse=[], type_comment=None)]
+        return body
+
+    def adder(name, comp, method=None):
+        tgt = ast.Name(id=name, ctx=ast.Load())
+        if isinstance(comp, ast.DictComp):
+            return [ast.Assign(targets=[ast.Subscript(value=tgt, slice=comp.key, ctx=ast.Store())], value=comp.value, lineno=comp.lineno)]
+        m = method or ('add' if isinstance(comp, ast.SetComp) else 'append')
+        return [ast.Expr(value=ast.Call(func=ast.Attribute(value=tgt, attr=m, ctx=ast.Load()), args=[comp.elt], keywords=[]))]
+
+    def empty(comp):
+        if isinstance(comp, ast.DictComp):
+            return ast.Call(func=ast.Name(id='dict', ctx=ast.Load()), args=[], keywords=[])
+        if isinstance(comp, ast.SetComp):
+            return ast.Call(func=ast.Name(id='set', ctx=ast.Load()), args=[], keywords=[])
+        return ast.Call(func=ast.Name(id='list', ctx=ast.Load()), args=[], keywords=[])
+
+    COMPS = (ast.ListComp, ast.SetComp, ast.DictComp)
+
+    def rewrite(st):
+        if isinstance(st, ast.Assign) and len(st.targets) == 1 and isinstance(st.targets[0], ast.Name) and isinstance(st.value, COMPS):
+            name = st.targets[0].id
+            if any(isinstance(x, ast.Name) and x.id == name for x in ast.walk(st.value)):
+                return None
+            out = [ast.Assign(targets=[ast.Name(id=name, ctx=ast.Store())], value=empty(st.value), lineno=st.lineno)]
+            return out + nest(st.value, adder(name, st.value))
+        if isinstance(st, ast.Expr) and isinstance(st.value, ast.Call) and isinstance(st.value.func, ast.Attribute) and \
+                st.value.func.attr in ('update', 'extend') and isinstance(st.value.func.value, ast.Name) and len(st.value.args) == 1 and \
+                isinstance(st.value.args[0], (ast.GeneratorExp, ast.ListComp, ast.SetComp)) and not st.value.keywords:
+            comp = st.value.args[0]
+            m = 'add' if st.value.func.attr == 'update' else 'append'
+            return nest(comp, adder(st.value.func.value.id, comp, m))
+        if isinstance(st, ast.Return) and isinstance(st.value, COMPS):
+            counter[0] += 1
+            name = f'_lz{counter[0]}'
+            out = [ast.Assign(targets=[ast.Name(id=name, ctx=ast.Store())], value=empty(st.value), lineno=st.lineno)]
+            return out + nest(st.value, adder(name, st.value)) + [ast.Return(value=ast.Name(id=name, ctx=ast.Load()))]
+        return None
+
+    def block(stmts):
+        out = []
+        for st in stmts:
+            r = rewrite(st)
+            if r is not None:
+                for x in r:
+                    ast.copy_location(x, st)
+                    for y in ast.walk(x):
+                        if not hasattr(y, 'lineno') and isinstance(y, (ast.stmt, ast.expr)):
+                            ast.copy_location(y, st)
+                out.extend(block(r))
+                continue
+            for field in ('body', 'orelse', 'finalbody'):
+                v = getattr(st, field, None)
+                if isinstance(v, list) and v and isinstance(v[0], ast.stmt) and not isinstance(st, (ast.FunctionDef, ast.AsyncFunctionDef, ast.ClassDef)):
+                    setattr(st, field, block(v))
+            if isinstance(st, ast.Try):
+                for h in st.handlers:
+                    h.body = block(h.body)
+            out.append(st)
+        return out
+    new.body = block(list(new.body))
+    ast.fix_missing_locations(new)
+    for attr in ('_inlined', '_cls', '_orig'):
+        if hasattr(fn, attr):
+            setattr(new, attr, getattr(fn, attr))
+    return _set_parents(new)
+
+
+def name_calls(fn, callees):
+    """Copy of ``fn`` in which every call to one of ``callees`` (method / function names) that is not already the whole
+    right-hand side of ``NAME = call`` is bound to a fresh local ``_ncN`` in a statement placed just before the statement
+    (or loop header / if test) that contains it. Only for side-effect free queries: the order of evaluation inside one
+    statement is not preserved."""
+    new = clone(fn)
+    counter = [0]
+
+    def head_exprs(st):
+        if isinstance(st, (ast.For, ast.AsyncFor)):
+            return ['iter']
+        if isinstance(st, (ast.If, ast.While)):
+            return ['test']
+        if isinstance(st, (ast.Expr, ast.Return, ast.AugAssign, ast.AnnAssign)):
+            return ['value']
+        if isinstance(st, ast.Assign):
+            return ['value']
+        return []
+
+    def block(stmts):
+        out = []
+        for st in stmts:
+            pre = []
+            for field in head_exprs(st):
+                root = getattr(st, field, None)
+                if root is None:
+                    continue
+                whole = isinstance(st, ast.Assign) and len(st.targets) == 1 and isinstance(st.targets[0], ast.Name) and \
+                    isinstance(root, ast.Call) and call_name(root) in callees
+                # innermost first, never inside comprehensions / lambdas (their variables are not in scope outside)
+                def find(node, acc):
+                    if isinstance(node, (ast.ListComp, ast.SetComp, ast.DictComp, ast.GeneratorExp, ast.Lambda)):
+                        return
+                    for ch in ast.iter_child_nodes(node):
+                        find(ch, acc)
+                    if isinstance(node, ast.Call) and call_name(node) in callees and not (whole and node is root):
+                        acc.append(node)
+                found = []
+                find(root, found)
+                for c in found:
+                    counter[0] += 1
+                    nm = f'_nc{counter[0]}'
+                    a = ast.copy_location(ast.Assign(targets=[ast.Name(id=nm, ctx=ast.Store())], value=c, lineno=st.lineno), st)
+                    pre.append(a)
+                    repl = ast.copy_location(ast.Name(id=nm, ctx=ast.Load()), c)
+                    if c is root:
+                        setattr(st, field, repl)
+                        root = repl
+                    else:
+                        for parent in ast.walk(root):
+                            for f2, v in ast.iter_fields(parent):
+                                if v is c:
+                                    setattr(parent, f2, repl)
+                                elif isinstance(v, list):
+                                    for i, x in enumerate(v):
+                                        if x is c:
+                                            v[i] = repl
+                        # keyword values
+                        for parent in ast.walk(root):
+                            if isinstance(parent, ast.keyword) and parent.value is c:
+                                parent.value = repl
+            for field in ('body', 'orelse', 'finalbody'):
+                v = getattr(st, field, None)
+                if isinstance(v, list) and v and isinstance(v[0], ast.stmt) and not isinstance(st, (ast.FunctionDef, ast.AsyncFunctionDef, ast.ClassDef)):
+                    setattr(st, field, block(v))
+            if isinstance(st, ast.Try):
+                for h in st.handlers:
+                    h.body = block(h.body)
+            out.extend(pre)
+            out.append(st)
+        return out
+    new.body = block(list(new.body))
+    ast.fix_missing_locations(new)
+    for attr in ('_inlined', '_cls', '_orig'):
+        if hasattr(fn, attr):
+            setattr(new, attr, getattr(fn, attr))
+    return _set_parents(new)
